@@ -17,7 +17,7 @@ Decided statically:
 Not decided: races between refill and callers as such; server behaviour.
 """
 from ..mir import AnchorLost
-from ..util import df_of, fn_short, in_set, operand_path, path_last, backward_slice, field_writers, callers_keys, switch_on, switch_edges, yields, _rv_locals
+from ..util import enum_variant_of_operand, df_of, fn_short, in_set, operand_path, path_last, backward_slice, field_writers, callers_keys, switch_on, switch_edges, yields, _rv_locals
 
 P = "scylla::network::connection_pool::"
 VK = "scylla::network::connection::VerifiedKeyspaceName"
@@ -146,7 +146,7 @@ def r2(ctx, facts):
 
 
 def r3(ctx, facts):
-    r = ctx.rule("R3", "fan-outs await every node / connection before replying", floor=6)
+    r = ctx.rule("R3", "fan-outs await every node / connection before replying", floor=8)
     sb = facts.one(r"^scylla::cluster::worker::ClusterWorker::send_use_keyspace::\{closure#0\}$")
     ja = sb.calls_to("futures_util::future::join_all::join_all")
     r.instance("nodes-join_all", len(ja) == 1, "send_use_keyspace must await join_all over the per-node futures", sb.span)
@@ -178,6 +178,25 @@ def r3(ctx, facts):
         r.instance("pool-replies-after-join", ok, "the pool replies only after its USE future completed", sends[0].span if sends else b2.span)
     else:
         r.fail("pool-replies-after-join", "spawned reply task of PoolRefiller::use_keyspace not found")
+    # who may answer a USE request: only the two tasks above (an early `Ok` elsewhere skips the fan-out)
+    allowed = {fn_short(hb.path), fn_short(sp[0].path) if sp else None}
+    seen = set()
+    for b in facts.bodies.mentioning("UseKeyspaceError"):
+        if b.crate != "scylla":
+            continue
+        for c in b.calls_to("tokio::sync::oneshot::Sender::<T>::send"):
+            a = c.args[0]
+            ty = b.local_ty(a[1][0]) if a[0] in ("c", "m") and not a[1][1] else ""
+            if "UseKeyspaceError" not in (ty or "") and "UseKeyspaceError" not in str(c.callee.get("args", "")):
+                continue
+            k = fn_short(b.path)
+            if k not in allowed and len(c.args) > 1 and enum_variant_of_operand(b, c.args[1]) == "Err":
+                continue  # an early failure reply does not claim success
+            if k in seen:
+                continue
+            seen.add(k)
+            r.instance("reply-site:" + k, k in allowed,
+                       "a USE KEYSPACE reply is sent from %s; replies may only come from the tasks that awaited the whole fan-out (%s)" % (k, sorted(x for x in allowed if x)), c.span)
 
 
 def r4(ctx, facts):
